@@ -180,6 +180,80 @@ def check_mps(rnd):
     return None
 
 
+class MultinomialIO(Multinomial):
+    """also records the probability tables handed to torch.multinomial"""
+
+    def __init__(self):
+        super().__init__()
+        self.probs = []
+
+    def __call__(self, probs, *a, **k):
+        self.probs.append(probs.detach().clone())
+        return super().__call__(probs, *a, **k)
+
+
+def check_mps_sweep(rnd):
+    """the conditional sweep of MPS.sample on random NON-canonical, unnormalised MPS: the table handed to
+    torch.multinomial at site q for a shot whose earlier outcomes are x_0..x_{q-1} is the joint weight
+    sum_rest |psi(x_0, .., x_{q-1}, k, rest)|^2 (dense definition), site after site from 0; the state and
+    its declared centre are truthful on return"""
+    from emu_mps import MPS
+    torch.set_num_threads(1)
+    for _ in range(60):
+        n = rnd.randint(2, 5)
+        dim = rnd.choice([2, 2, 3])
+        chi = rnd.randint(1, 3)
+        scale = rnd.choice([1.0, 0.3, 4.0])
+        factors = [torch.randn(1 if i == 0 else chi, dim, 1 if i == n - 1 else chi, dtype=torch.complex128)
+                   for i in range(n)]
+        factors[0] = factors[0] * scale
+        state = MPS([f.clone() for f in factors], eigenstates=("r", "g") if dim == 2 else ("r", "g", "x"),
+                    num_gpus_to_use=0)
+        if rnd.random() < 0.5:
+            state.orthogonalize(rnd.randrange(n))        # a declared centre somewhere else
+        acc = torch.ones(1, 1, dtype=torch.complex128)
+        for f in state.factors:
+            acc = torch.tensordot(acc, f, dims=1).reshape(-1, f.shape[2])
+        psi = acc.reshape([dim] * n)
+        w = (psi.abs() ** 2)
+        shots = rnd.choice([1, 5, 40])
+        m = MultinomialIO()
+        torch.multinomial = m
+        try:
+            state.sample(num_shots=shots)
+        finally:
+            torch.multinomial = m.real
+        label = f"N={n} dim={dim} chi={chi} |psi|^2={w.sum().item():.4g} shots={shots}"
+        if len(m.probs) % n:
+            return f"MPS.sample called torch.multinomial {len(m.probs)} times for {n} sites [{label}]"
+        for b in range(0, len(m.probs), n):
+            outs = [t.reshape(-1) for t in m.log[b:b + n]]
+            for q in range(n):
+                p = m.probs[b + q]
+                for s in range(p.shape[0]):
+                    sub = w
+                    for qq in range(q):
+                        sub = sub[int(outs[qq][s])]
+                    want = sub.reshape(dim, -1).sum(1)
+                    if (p[s].to(want.dtype) - want).abs().max().item() > 1e-9 * max(1.0, w.sum().item()):
+                        return (f"MPS.sample: the weights handed to torch.multinomial at site {q} are "
+                                f"{p[s].tolist()} but the joint weights of (earlier outcomes, k) are "
+                                f"{want.tolist()} [{label}]")
+        acc = torch.ones(1, 1, dtype=torch.complex128)
+        for f in state.factors:
+            acc = torch.tensordot(acc, f, dims=1).reshape(-1, f.shape[2])
+        if (acc.reshape(-1) - psi.reshape(-1)).abs().max().item() > 1e-9 * max(1.0, w.sum().item() ** 0.5):
+            return f"MPS.sample changed the represented state [{label}]"
+        c = state.orthogonality_center
+        if c != 0:
+            return f"MPS.sample left the declared centre at {c} [{label}]"
+        for i, f in enumerate(state.factors[1:], start=1):
+            g = torch.tensordot(f.conj(), f, ([1, 2], [1, 2]))
+            if (g - torch.eye(g.shape[0], dtype=g.dtype)).abs().max().item() > 1e-8:
+                return f"MPS.sample: factor {i} is not right-orthonormal although the declared centre is 0 [{label}]"
+    return None
+
+
 def main():
     rec = json.load(open(sys.argv[1])) if len(sys.argv) > 1 and os.path.exists(sys.argv[1]) else {}
     seed = int(os.environ.get("VERIF_SEED", "0"))
@@ -190,7 +264,8 @@ def main():
     utils = sys.modules["emu_base.utils"]
     try:
         for name, chk in (("readout", lambda: check_readout(rnd, utils)), ("index", check_index_to_bitstring),
-                          ("sv", lambda: check_sv(rnd)), ("mps", lambda: check_mps(rnd))):
+                          ("sv", lambda: check_sv(rnd)), ("mps", lambda: check_mps(rnd)),
+                          ("mps-sweep", lambda: check_mps_sweep(rnd))):
             bad = chk()
             if bad:
                 print(f"REPRODUCED: {bad}")
